@@ -45,10 +45,11 @@ CHECKS["C19"] = (
     "runtime monitoring under injected faults: child processes whose PATH resolves `rustfmt` to "
     "fault stubs, failpoint delay between spawn and write; returned text compared by canonical "
     "form with the formatter-off program; hang classified by idle CPU",
-    "Every cell of {17 formatter faults: absent, exit!=0 after/without reading, killed by "
+    "Every cell of {18 formatter faults: absent, exit!=0 after/without reading, killed by "
     "SIGKILL/SIGTERM before/after reading, partial output then killed/failed, garbage + failure, "
     "reads 1 KiB then fails, empty output with exit 0 (with and without reading), slow but "
-    "correct, output cut inside a multi-byte character, whole input echoed then failure} x "
+    "correct, correct but in two pieces a second apart, output cut inside a multi-byte "
+    "character, whole input echoed then failure} x "
     "{output below/above the 64 KiB pipe buffer} x {failpoint delay 0/50 ms} is run "
     "in its own child; the real formatter is run over the whole corpus and over five derive "
     "option sets; six shaders above the pipe buffer run concurrently on six threads; a history "
@@ -65,12 +66,13 @@ CHECKS["C20"] = (
     "runtime monitoring of cost: hook step counters + thread CPU time per call in child "
     "processes under RLIMIT_CPU, on shader families of growing call depth / type nesting, "
     "bounded by a polynomial in the naga IR size",
-    "50 families: call chains and diamonds (value and void calls, width 2-4, "
+    "53 families: call chains and diamonds (value and void calls, width 2-4, "
     "depth up to 64), calls buried in if/loop/continuing/switch, several entry points over one "
     "deep graph, fan-out, many call sites, struct towers (arity 2/3/8, with arrays), let-chain "
     "DAGs (plain and as call argument), control flow nested up to 24 deep (multi-selector "
     "switch, if/else, loop, continuing, block), long bodies, wide shaders, a formatter-on family "
-    "above the pipe buffer, lattices (2-4 different helpers per level), up to 300 functions "
+    "above the pipe buffer, lattices (2-4 different helpers per level), diamonds from which no "
+    "variable is reachable, else-if chains of up to 100 arms, up to 300 functions "
     "before a deep diamond, chains of depth 256, override / const / alias chains, 'magnitude' "
     "families in which one number of the shader grows to its maximum at constant shader size, "
     "and an error-path family (sparse group indices up to 2^32-1): "
